@@ -106,6 +106,10 @@ def quick():
     # a relation and a constraint on the same target at overlapping indices; a relation whose source no dataset has
     c.append(Cfg("relation_and_zero_same_target_linked", (DS("ds1", T3, (0.0, 1.0)), DS("ds2", T2, (1.0, 2.0), scale=True)), megacomplexes=M13, relations=(("s1", "s2", None),), constraints=(("zero", "s2", (0.5, 1.5)),), groups={"default": (True, VP)}))
     c.append(Cfg("relation_and_zero_same_target", (DS("ds1", T3, (0.0, 1.0, 2.0)),), megacomplexes=M13, relations=(("s1", "s2", None),), constraints=(("zero", "s2", (0.5, 1.5)),), groups={"default": (False, VP)}))
+    # linked datasets with *different* label sets and partly overlapping axes; a zero constraint / a relation without interval
+    # on a clp that exists at some aligned indices only (what is removed at one index is not what is removed at another)
+    c.append(Cfg("linked_label_sets_differ_zero_everywhere", (DS("ds1", T3, (0.0, 1.0, 2.0), megacomplexes=("ma",)), DS("ds2", T2, (2.0, 3.0, 4.0), megacomplexes=("mb",), scale=True)), megacomplexes={"ma": (("s1",), False), "mb": (("s1", "s2"), False)}, constraints=(("zero", "s2", None),), groups={"default": (True, VP)}))
+    c.append(Cfg("linked_label_sets_differ_relation_everywhere", (DS("ds1", T3, (0.0, 1.0, 2.0), megacomplexes=("ma",)), DS("ds2", T2, (2.0, 3.0, 4.0), megacomplexes=("mb",))), megacomplexes={"ma": (("s1",), False), "mb": (("s1", "s2", "s3"), False)}, relations=(("s3", "s2", None),), groups={"default": (True, VP)}))
     c.append(Cfg("relation_source_absent_linked", (DS("ds1", T3, (0.0, 1.0)), DS("ds2", T2, (1.0, 2.0))), megacomplexes=M13, relations=(("sx", "s2", None),), groups={"default": (True, VP)}))
     # model weights
     c.append(Cfg("model_weight", (DS("ds1", T3, (0.0, 1.0, 2.0)), DS("ds2", T2, (0.0, 1.0))), model_weights=((("ds1",), (1.0, 2.0), (0.0, 1.0)), (("ds1", "ds2"), None, (1.0, INF))), groups={"default": (False, VP)}))
